@@ -279,8 +279,7 @@ Proof. exact site_legal_pairs. Qed.
 Print Assumptions C17_site_events_follow_reports.
 
 (* ---- both components end to end (Model.e2e_step) ----
-   Variant Repaired = all recorded repairs: 94649ad (in /repo), and the two repairs still proposed
-   (fixes/C17_ipoe_request_solicit_never_claim.patch, fixes/C17_pppoe_superseded_session_survives.patch).
+   Variant Repaired = /repo HEAD for the three eviction repairs (94649ad, c1f4ba1, 49433a1).
    For EVERY history of DISCOVER / REQUEST / SOLICIT / PADR (replayed PADRs included, no hypothesis):
    after every operation every tuple has no session at all or exactly ONE live session over both
    components, which is the registry owner; and the session the last operation created (or found, for
@@ -298,7 +297,7 @@ Theorem C17_e2e_newest_survives :
 Proof. exact e2e_newest_survives. Qed.
 Print Assumptions C17_e2e_newest_survives.
 
-(* KNOWN (signature ipoe-session-without-claim): /repo sets MixedAccess only in handleDiscover.  An IPoE
+(* Historical (fixed in /repo c1f4ba1, signature ipoe-session-without-claim): MixedAccess was set only in handleDiscover.  An IPoE
    session created by DHCPREQUEST or DHCPv6 SOLICIT never claims its tuple: it owns nothing and shares
    the tuple with a PPPoE session, whichever came first. *)
 Theorem C17_e2e_exclusive_refuted_unclaimed_paths :
@@ -310,8 +309,8 @@ Theorem C17_e2e_exclusive_refuted_unclaimed_paths :
 Proof. exact e2e_unclaimed_paths_witness. Qed.
 Print Assumptions C17_e2e_exclusive_refuted_unclaimed_paths.
 
-(* KNOWN (signature pppoe-superseded-session-survives): the PPPoE session displaced by a replayed PADR
-   is reported by the registry and ignored by addToIndexes; it stays alive without the tuple, and after
+(* Historical (fixed in /repo 49433a1, signature pppoe-superseded-session-survives): the PPPoE session displaced by a
+   replayed PADR was reported by the registry and ignored by addToIndexes; it stays alive without the tuple, and after
    an IPoE takeover an IPoE and a PPPoE session are live on one tuple. *)
 Theorem C17_e2e_exclusive_refuted_superseded :
   e2e_snapshot (e2e_run SupersededSurvives world0 [EPadr e2e_k; EPadr e2e_k]) e2e_k = (0%nat, 2%nat, Some proto_pppoe) /\
@@ -338,6 +337,30 @@ Theorem C17_pppoe_site_reports_every_displaced :
     end.
 Proof. exact component_claim_any_events. Qed.
 Print Assumptions C17_pppoe_site_reports_every_displaced.
+
+(* ---- ownership across a RESTART (Model.e2e_restart: the registry starts empty and every session the
+        components restore from their checkpoints claims its tuple again) ----
+   For every history, a restart rebuilds exactly the ownership there was: every live session owns its
+   tuple again, every tuple without a session is unowned, and the per-tuple observation is unchanged. *)
+Theorem C17_restore_reowns :
+  forall ops,
+    let w := e2e_run Repaired world0 ops in
+    forall k, reg_get (w_reg (e2e_restart w)) k = reg_get (w_reg w) k /\
+              e2e_snapshot (e2e_restart w) k = e2e_snapshot w k.
+Proof. exact restart_reowns_run. Qed.
+Print Assumptions C17_restore_reowns.
+
+(* KNOWN (signature ipoe-restored-halfopen-session-without-claim): /repo's ipoe restore path claims only at
+   the end of setupSessionRestore; a session checkpointed half-established (or whose dataplane restore fails)
+   is put back into the session tables without a claim: it owns nothing after the restart and a PPPoE
+   session then shares its tuple. *)
+Theorem C17_restore_reowns_refuted :
+  let w := e2e_run Repaired world0 [EDiscover e2e_k] in
+  e2e_snapshot (e2e_restart_skipping [e2e_k] w) e2e_k = (1%nat, 0%nat, None) /\
+  e2e_snapshot (e2e_step Repaired (e2e_restart_skipping [e2e_k] w) (EPadr e2e_k)) e2e_k = (1%nat, 1%nat, Some proto_pppoe) /\
+  e2e_snapshot (e2e_restart w) e2e_k = (1%nat, 0%nat, Some proto_ipoe).
+Proof. exact restart_skipping_witness. Qed.
+Print Assumptions C17_restore_reowns_refuted.
 
 (* ---- non-vacuity ---- *)
 Definition k1 : key := mkKey 100 10 [2; 170; 187; 204; 0; 1]%N.
